@@ -82,9 +82,9 @@ WF/OrLaterBase.vos WF/OrLaterBase.vok WF/OrLaterBase.required_vos: WF/OrLaterBas
 Props/Shipped.vo Props/Shipped.glob Props/Shipped.v.beautified Props/Shipped.required_vo: Props/Shipped.v Model/Api.vo Spec/WF.vo Spec/MatchSpec.vo Gen/Tables.vo Proofs/NodeInv.vo Proofs/WFSound.vo WF/Words.vo WF/NoKeywordPrefix.vo WF/FoldUnique.vo WF/OrLaterBase.vo
 Props/Shipped.vio: Props/Shipped.v Model/Api.vio Spec/WF.vio Spec/MatchSpec.vio Gen/Tables.vio Proofs/NodeInv.vio Proofs/WFSound.vio WF/Words.vio WF/NoKeywordPrefix.vio WF/FoldUnique.vio WF/OrLaterBase.vio
 Props/Shipped.vos Props/Shipped.vok Props/Shipped.required_vos: Props/Shipped.v Model/Api.vos Spec/WF.vos Spec/MatchSpec.vos Gen/Tables.vos Proofs/NodeInv.vos Proofs/WFSound.vos WF/Words.vos WF/NoKeywordPrefix.vos WF/FoldUnique.vos WF/OrLaterBase.vos
-Props/C01.vo Props/C01.glob Props/C01.v.beautified Props/C01.required_vo: Props/C01.v Props/Shipped.vo Spec/Grammar.vo Spec/Eval.vo Proofs/ParseGrammar.vo Proofs/Sat.vo Proofs/Laws.vo Proofs/ApiFacts.vo
-Props/C01.vio: Props/C01.v Props/Shipped.vio Spec/Grammar.vio Spec/Eval.vio Proofs/ParseGrammar.vio Proofs/Sat.vio Proofs/Laws.vio Proofs/ApiFacts.vio
-Props/C01.vos Props/C01.vok Props/C01.required_vos: Props/C01.v Props/Shipped.vos Spec/Grammar.vos Spec/Eval.vos Proofs/ParseGrammar.vos Proofs/Sat.vos Proofs/Laws.vos Proofs/ApiFacts.vos
+Props/C01.vo Props/C01.glob Props/C01.v.beautified Props/C01.required_vo: Props/C01.v Props/Shipped.vo Spec/Grammar.vo Spec/Eval.vo Model/Expand.vo Proofs/ParseGrammar.vo Proofs/Sat.vo Proofs/Laws.vo Proofs/ApiFacts.vo Proofs/ExpandProof.vo
+Props/C01.vio: Props/C01.v Props/Shipped.vio Spec/Grammar.vio Spec/Eval.vio Model/Expand.vio Proofs/ParseGrammar.vio Proofs/Sat.vio Proofs/Laws.vio Proofs/ApiFacts.vio Proofs/ExpandProof.vio
+Props/C01.vos Props/C01.vok Props/C01.required_vos: Props/C01.v Props/Shipped.vos Spec/Grammar.vos Spec/Eval.vos Model/Expand.vos Proofs/ParseGrammar.vos Proofs/Sat.vos Proofs/Laws.vos Proofs/ApiFacts.vos Proofs/ExpandProof.vos
 Props/C02.vo Props/C02.glob Props/C02.v.beautified Props/C02.required_vo: Props/C02.v Props/Shipped.vo Proofs/MatchProof.vo Proofs/Sat.vo Proofs/ApiFacts.vo
 Props/C02.vio: Props/C02.v Props/Shipped.vio Proofs/MatchProof.vio Proofs/Sat.vio Proofs/ApiFacts.vio
 Props/C02.vos Props/C02.vok Props/C02.required_vos: Props/C02.v Props/Shipped.vos Proofs/MatchProof.vos Proofs/Sat.vos Proofs/ApiFacts.vos
@@ -226,3 +226,9 @@ Proofs/RoundTrip.vos Proofs/RoundTrip.vok Proofs/RoundTrip.required_vos: Proofs/
 Proofs/ParseCost.vo Proofs/ParseCost.glob Proofs/ParseCost.v.beautified Proofs/ParseCost.required_vo: Proofs/ParseCost.v Model/Ticks.vo Spec/Grammar.vo Proofs/ParseGrammar.vo
 Proofs/ParseCost.vio: Proofs/ParseCost.v Model/Ticks.vio Spec/Grammar.vio Proofs/ParseGrammar.vio
 Proofs/ParseCost.vos Proofs/ParseCost.vok Proofs/ParseCost.required_vos: Proofs/ParseCost.v Model/Ticks.vos Spec/Grammar.vos Proofs/ParseGrammar.vos
+Model/Expand.vo Model/Expand.glob Model/Expand.v.beautified Model/Expand.required_vo: Model/Expand.v Model/Api.vo
+Model/Expand.vio: Model/Expand.v Model/Api.vio
+Model/Expand.vos Model/Expand.vok Model/Expand.required_vos: Model/Expand.v Model/Api.vos
+Proofs/ExpandProof.vo Proofs/ExpandProof.glob Proofs/ExpandProof.v.beautified Proofs/ExpandProof.required_vo: Proofs/ExpandProof.v Model/Expand.vo Spec/Eval.vo Proofs/Laws.vo
+Proofs/ExpandProof.vio: Proofs/ExpandProof.v Model/Expand.vio Spec/Eval.vio Proofs/Laws.vio
+Proofs/ExpandProof.vos Proofs/ExpandProof.vok Proofs/ExpandProof.required_vos: Proofs/ExpandProof.v Model/Expand.vos Spec/Eval.vos Proofs/Laws.vos
